@@ -5,6 +5,7 @@ mod common;
 mod dump;
 mod opt;
 mod optgen;
+mod parse;
 
 use std::io::{BufRead, Write};
 
@@ -22,6 +23,9 @@ fn main() {
     match cmd {
         "dump" => {
             println!("{}", serde_json::to_string_pretty(&dump::dump()).unwrap());
+        }
+        "parse-run" => {
+            parse::run(arg(&args, "--cases").expect("--cases"), arg(&args, "--out").expect("--out"));
         }
         "opt-gen" => {
             let focus = arg(&args, "--focus").unwrap_or("C06");
